@@ -87,7 +87,9 @@ func TestVerifC17HRR(t *testing.T) {
 		var cookie []byte
 		withCookie := rapid.Bool().Draw(rt, "withcookie")
 		if withCookie || mode == "cookie-only" {
-			n := []int{1, 2, 32, 255, 256, 300}[rapid.IntRange(0, 5).Draw(rt, "cookielenclass")]
+			// up to the largest cookie a HelloRetryRequest can carry next to its other extensions (opaque cookie<1..2^16-1>):
+			// the second hello then exceeds common buffer sizes (4 KiB, 16 KiB record)
+			n := []int{1, 2, 32, 255, 256, 300, 4000, 5000, 16000, 33000, 65000}[rapid.IntRange(0, 10).Draw(rt, "cookielenclass")]
 			if rapid.Bool().Draw(rt, "cookielenrandom") {
 				n = rapid.IntRange(1, 300).Draw(rt, "cookielen")
 			}
